@@ -24,7 +24,7 @@ EXPLANATION = (
     "exhaustion arm. A success carrying a bare exception object, an unguarded second fire, or an exit that forgets "
     "Deferreds each break the property for a concrete schedule (witness in each report)."
 )
-SHARED = [('C09', ['R2'], 'the acknowledged request carries exactly the submitted messages, keys and order'), ('C11', ['R1'], 'a send that expects no reply still completes or fails within the client timeout'), ('C19', ['R2'], 'queue accounting: a queued send is eventually dispatched, so its Deferred fires')]
+SHARED = [('C07', ['R5'], 'every payload handed to the client comes back answered or on the failed list, so every send is delivered a result or retried'), ('C09', ['R3'], 'the reply to a retried payload is delivered to the sends it belongs to (the retry handler gets the table of this attempt)'), ('C19', ['R4'], 'nothing is dispatched, and no send is left pending, once stop() has begun'), ('C09', ['R2'], 'the acknowledged request carries exactly the submitted messages, keys and order'), ('C11', ['R1'], 'a send that expects no reply still completes or fails within the client timeout'), ('C19', ['R2'], 'queue accounting: a queued send is eventually dispatched, so its Deferred fires')]
 ASSUMPTIONS = [
     "Twisted: Deferred.callback(x) with x not a Failure is a success; callback(Failure) behaves as errback",
     "KafkaClient.send_produce_request fires with a list of ProduceResponse (possibly empty/None with acks=0) or fails",
@@ -81,6 +81,12 @@ def _failed_payloads_summary(ctx):
                         if src_ok and (flag, False) in facts[n.id]:
                             good = True
                             res_loop = m
+        if not good and isinstance(elt, ast.Tuple) and len(elt.elts) == 2:
+            # ... or a Failure constructed right there (a payload the reply left out: accounted for by C07.R5)
+            og_ = value_origins(cf, n.id, elt.elts[1], params=f.params) or []
+            if og_ and all(isinstance(v_, ast.Call) and call_name(v_) == "Failure" and v_.args for _dn, v_ in og_):
+                details.append("%s constructed-failure=True" % norm(c, 70))
+                continue
         # ... and for EVERY failed result: inside the result loop the statement depends on the flag alone
         loops = [res_loop] if res_loop is not None else []
         if loops:
@@ -314,6 +320,53 @@ def run(ctx):
             "exhaustion arm schedules another attempt", where(crp, t.stmt))
 
     # ---- R7 producer stop fails every outstanding send
+    # ---- R8 a batch that cannot be sent fails its sends
+    r = ctx.rule("R8", "an exception in the send stage of a batch is delivered to every caller of that batch before a stage swallows it", 1, "C")
+    sbf = ctx.func(PROD + "._send_batch")
+    regs_b = registrations(sbf, prog)
+    send_i = [i for i, g in enumerate(regs_b) if g["cb"] is not None and prog.resolve_callable(sbf, g["cb"]) is sreq]
+    ok8, why8 = False, "the send stage is not registered on the batch Deferred"
+    if send_i:
+        g0 = regs_b[send_i[0]]
+        reqs_arg = [norm(a) for a in g0["call"].args[1:]]
+        why8 = "no failure-side stage between the send stage and the first stage that absorbs failures"
+        for g in regs_b[send_i[0] + 1:]:
+            if g["root"] != g0["root"]:
+                continue
+            hexpr = g["eb"] if g["kind"] in ("eb", "cbs") else (g["cb"] if g["kind"] == "both" else None)
+            if hexpr is None:
+                continue
+            h = prog.resolve_callable(sbf, hexpr)
+            if h is None:
+                break
+            extra = [norm(a) for a in (g["call"].args[1:] if g["kind"] in ("eb", "both") else [])]
+            ps = [p_ for p_ in h.params if p_ not in ("self", "cls")]
+            fails_all = False
+            if len(ps) >= 2 and extra[:1] == reqs_arg[:1]:
+                chh = ctx.cfg(h)
+                fhh = ctx.facts(h)
+                for lp_ in [n for n in chh.nodes if n.kind == "for" and norm(n.stmt.iter) == ps[1]]:
+                    lv_ = unparse(lp_.stmt.target)
+                    body_ = chh.reach([t for t, lab in chh.succ[lp_.id] if lab == ("iter", True)], avoid=[lp_.id])
+                    ebs_ = [chh.nodes[i] for i in body_ if any(call_name(c) == "errback" and call_recv(c) == "%s.deferred" % lv_ and c.args and
+                                                                 norm(c.args[0]) == ps[0] for c in chh.nodes[i].calls())]
+                    if ebs_ and all(("%s.deferred.called" % lv_, False) in fhh[n.id] for n in ebs_) and not any(
+                            isinstance(x, (ast.Break, ast.Return)) for x in ast.walk(lp_.stmt)):
+                        fails_all = True
+            if fails_all:
+                ok8 = True
+                break
+            # a failure-side stage that does something else: does it hand the failure on?
+            rets_ = [n for n in ctx.cfg(h).nodes if n.kind == "stmt" and isinstance(n.stmt, ast.Return)]
+            passes_on = bool(rets_) and all(n.stmt.value is not None and norm(n.stmt.value) == ps[0] for n in rets_) and not ctx.cfg(h).normal_exits_from(
+                ctx.cfg(h).entry.id, avoid=[n.id for n in rets_])
+            if not passes_on:
+                why8 = "the failure of the send stage reaches `%s`, which absorbs it, before anything has failed the sends of the batch" % h.name
+                break
+    r.check(ok8, "%s#send-stage-failure-reaches-callers" % sbf.qname, why8, where(sbf, sbf.node),
+            "the message set cannot be built (snappy configured, python-snappy not installed): the requests were taken off the queue, "
+            "the exception is logged by the completion stage and the callers' Deferreds never fire")
+
     stop_fails_outstanding(ctx, ctx.rule("R7", "stop() cancels every outstanding send, iterating a copy of the list", 2, "B"))
 
 
@@ -372,6 +425,11 @@ MUTANTS = [
 ]
 
 TWINS = [
+    {"id": "send-stage-failure-fails-the-batch", "note": "the repair of known finding F40 (withdrawn because an unedited test relies on the swallow): R8 is silent on it",
+     "edits": [("producer.py", "        d.addCallback(self._send_requests, requests)\n",
+                "        d.addCallback(self._send_requests, requests)\n        d.addErrback(self._fail_batch, requests)\n"),
+               ("producer.py", "    def _complete_batch_send(self, resp):\n",
+                "    def _fail_batch(self, failure, requests):\n        for req in requests:\n            if not req.deferred.called:\n                req.deferred.errback(failure)\n        return failure\n\n    def _complete_batch_send(self, resp):\n")]},
     {"id": "wrap-at-append", "file": "producer.py",
      "old": "                failed_payloads.append((p, e))", "new": "                failed_payloads.append((p, Failure(e)))"},
     {"id": "guard-inverted", "file": "producer.py",
